@@ -1,3 +1,4 @@
+import OnetVerif.Model.C09
 /-! Model for property C10, second part (core-only): what `Server.Close` goes through before and
 around the router — three small transition systems, each with unboundedly many concurrent calls and
 arbitrary schedules (a schedule is a list of actions; an action that is not enabled is skipped).
@@ -175,6 +176,40 @@ def WsStopPc.rank : WsStopPc → Nat
 
 /-- steps the `stop` calls (and a `start` that has begun) still have to take -/
 def wsMeasure (s : Ws) : Nat := s.start.rank + (s.stops.map WsStopPc.rank).sum
+
+/-! ### the connection table with several connections per peer (`router.go:410-430, 532-546`)
+`registerConnection` appends to the peer's slice; `removeConnection` overwrites the entry of the lost
+connection with the slice's last one and cuts the slice by one (the C09 model's `removeSwap`).
+`Router.Stop` closes exactly the listed connections and then waits for every receive loop: a live
+connection that is not listed is never closed, and `Stop` waits for its loop for ever.
+`dropAtOne = true`: the variant that deletes the peer's whole entry when one connection remains. -/
+
+inductive TblAct
+  | register (id : Nat) (peer : Nat)
+  | remove (id : Nat)
+  deriving DecidableEq, Repr
+
+def tblStep (dropAtOne : Bool) (l : List C09.Conn) : TblAct → List C09.Conn
+  | .register i p => if l.any (·.id == i) then l else l ++ [{ id := i, peer := p, alive := true }]
+  | .remove i =>
+    match l.find? (·.id == i) with
+    | none => l
+    | some c =>
+      let l' := C09.removeSwap l c
+      if dropAtOne && (l'.filter (·.peer == c.peer)).length == 1 then l'.filter (·.peer != c.peer) else l'
+
+def tblRun (dropAtOne : Bool) (l : List C09.Conn) : List TblAct → List C09.Conn
+  | [] => l
+  | a :: as => tblRun dropAtOne (tblStep dropAtOne l a) as
+
+/-- the small specification: a set of connections with insert and erase -/
+def tblSpecStep (l : List C09.Conn) : TblAct → List C09.Conn
+  | .register i p => if l.any (·.id == i) then l else l ++ [{ id := i, peer := p, alive := true }]
+  | .remove i => l.filter (·.id != i)
+
+def tblSpecRun (l : List C09.Conn) : List TblAct → List C09.Conn
+  | [] => l
+  | a :: as => tblSpecRun (tblSpecStep l a) as
 
 /-! ### the TCP / TLS listener -/
 
